@@ -1247,7 +1247,9 @@ int32 matrixRegisterSession(ssl_t *ssl)
  */
     Memcpy(g_sessionTable[i].masterSecret, ssl->sec.masterSecret,
         SSL_HS_MASTER_SIZE);
-    g_sessionTable[i].cipher = ssl->cipher;
+    /* Not resumable (cipher == NULL) until the handshake that creates the
+        session has been verified; matrixUpdateSession publishes it */
+    g_sessionTable[i].cipher = NULL;
     g_sessionTable[i].inUse += 1;
 /*
     The sessionId is the current serverRandom value, with the first 4 bytes
@@ -1442,6 +1444,12 @@ int32 matrixUpdateSession(ssl_t *ssl)
         g_sessionTable[i].cipher = NULL;
         psUnlockMutex(&g_sessionTableLock);
         return PS_FAILURE;
+    }
+    if (ssl->hsState != SSL_HS_DONE)
+    {
+        /* Peer's Finished not verified yet: keep the entry unpublished */
+        psUnlockMutex(&g_sessionTableLock);
+        return PS_SUCCESS;
     }
     Memcpy(g_sessionTable[i].masterSecret, ssl->sec.masterSecret,
         SSL_HS_MASTER_SIZE);
